@@ -99,6 +99,40 @@ class CapFile(SimFile):
         return super().readline(self.cap)
 
 
+class PipeFile(SimFile):
+    """
+    File object over a pipe / FIFO / socket.makefile(): read and readline work, but the stream is
+    not seekable - tell() and seek() exist and raise OSError (ESPIPE), seekable() is False.
+    """
+
+    def read(self, size=-1):
+        off = io.BytesIO.tell(self)
+        self.budget.tick(off >= self.wire_len)
+        data = io.BytesIO.read(self, size)
+        self.ledger.append(("read", off, size, len(data)))
+        return data
+
+    def readline(self, size=-1):
+        off = io.BytesIO.tell(self)
+        self.budget.tick(off >= self.wire_len)
+        data = io.BytesIO.readline(self, size)
+        self.ledger.append(("readline", off, size, len(data)))
+        return data
+
+    def tell(self):
+        raise OSError(29, "Illegal seek")
+
+    def seek(self, *args):
+        raise OSError(29, "Illegal seek")
+
+    def seekable(self):
+        return False
+
+    @property
+    def handed_out(self) -> int:
+        return io.BytesIO.tell(self)
+
+
 class SimSocket(socket.socket):
     """
     A socket whose peer and network are simulated.
@@ -121,9 +155,11 @@ class SimSocket(socket.socket):
         segs = schedule.get("segments") or ([[0.0, len(wire)]] if wire else [])
         self._arrivals = []  # (time, end_offset)
         off = 0
+        t_prev = 0.0
         for t, n in segs:
             off += n
-            self._arrivals.append((float(t), off))
+            t_prev = max(t_prev, float(t))  # a byte stream is delivered in order: no segment overtakes an earlier one
+            self._arrivals.append((t_prev, off))
         if off != len(wire):
             raise ValueError(f"segments cover {off} bytes, wire has {len(wire)}")
         self._timeout = schedule.get("timeout")
@@ -188,6 +224,14 @@ class SimSocket(socket.socket):
     def send(self, data, flags=0):
         self.sent.append(bytes(data))
         return len(data)
+
+    def idle(self, seconds: float):
+        """Virtual time passes without a recv() (the application waits before asking again)."""
+        self.now += seconds
+
+    def everything_arrived(self) -> bool:
+        """True when, at the current virtual time, the peer has sent its last byte."""
+        return not self._arrivals or self._arrivals[-1][0] <= self.now
 
     def settimeout(self, value):
         self._timeout = value
@@ -317,6 +361,8 @@ def make_transport(wire: bytes, tr: dict):
         return SimFile(wire)
     if kind == "capfile":
         return CapFile(wire, tr.get("cap", 16))
+    if kind == "pipe":
+        return PipeFile(wire)
     sched = dict(tr)
     if sched.get("segments") is not None:
         sched["segments"] = fit_segments(sched["segments"], len(wire))
